@@ -97,4 +97,63 @@ theorem uisdGo_error : ∀ (ds : List K) (i : Nat) (inv : Mat K n n),
       exact uisdGo_error ds (i + 1) _ hi (by simp at h2 ⊢; omega)
     · simp [uisdGo, hi]
 
+/-- the pivot cannot vanish when the updated matrix is invertible -/
+theorem pivot_ne_zero (A inv B : Matrix (Fin n) (Fin n) K) (i : Fin n) (d : K) (h : inv * A = 1)
+    (hB : B * (A + diagonal (Pi.single i d)) = 1) : 1 + d * inv i i ≠ 0 := by
+  intro hp
+  have h' : A * inv = 1 := _root_.mul_eq_one_comm.mp h
+  set x : Fin n → K := inv *ᵥ Pi.single i 1 with hx
+  have hxi : ∀ r, x r = inv r i := by
+    intro r; simp [hx, mulVec_single_one]
+  have hAx : A *ᵥ x = Pi.single i 1 := by
+    rw [hx, mulVec_mulVec, h', one_mulVec]
+  have hEx : (diagonal (Pi.single i d) : Matrix (Fin n) (Fin n) K) *ᵥ x = Pi.single i (d * inv i i) := by
+    funext r
+    rw [mulVec_diagonal, hxi]
+    by_cases hr : r = i
+    · subst hr; simp
+    · simp [Pi.single_apply, hr]
+  have hsum : (A + diagonal (Pi.single i d)) *ᵥ x = 0 := by
+    rw [add_mulVec, hAx, hEx]
+    funext r
+    by_cases hr : r = i
+    · subst hr; simpa using hp
+    · simp [Pi.single_apply, hr]
+  have hx0 : x = 0 := by
+    have := congrArg (fun M => M *ᵥ x) hB
+    simp only [one_mulVec] at this
+    rw [← this, ← mulVec_mulVec, hsum, mulVec_zero]
+  rw [hx0, mulVec_zero] at hAx
+  have := congrFun hAx i
+  simp at this
+
+/-- all pivots are non-zero when every partial sum `A + diag(d₀ … d_k, 0 …)` is invertible -/
+theorem uisd_pivots_of_partial : ∀ (ds : List K) (i : Nat) (inv A : Matrix (Fin n) (Fin n) K),
+    inv * A = 1 → i + ds.length ≤ n →
+    (∀ k, k < ds.length → ∃ B : Matrix (Fin n) (Fin n) K,
+      B * (A + toM (diagFrom (n := n) i (ds.take (k + 1)))) = 1) →
+    ∀ p ∈ uisdPivots i ds inv, p ≠ 0
+  | [], _, _, _, _, _, _ => by simp [uisdPivots]
+  | d :: ds, i, inv, A, h, hlen, hpart => by
+    have hi : i < n := by simp at hlen; omega
+    obtain ⟨B0, hB0⟩ := hpart 0 (by simp)
+    have hB0' : B0 * (A + diagonal (Pi.single (⟨i, hi⟩ : Fin n) d)) = 1 := by
+      have e := toM_diagFrom_cons (K := K) i hi d []
+      rw [toM_diagFrom_nil, add_zero] at e
+      simpa [e] using hB0
+    have hpiv := pivot_ne_zero A inv B0 ⟨i, hi⟩ d h hB0'
+    have hstep := sm_step A inv ⟨i, hi⟩ d h hpiv
+    have hrest := uisd_pivots_of_partial ds (i + 1) (smStep inv ⟨i, hi⟩ d)
+      (A + diagonal (Pi.single (⟨i, hi⟩ : Fin n) d)) hstep (by simp at hlen ⊢; omega)
+      (fun k hk => by
+        obtain ⟨B, hB⟩ := hpart (k + 1) (by simp; omega)
+        refine ⟨B, ?_⟩
+        rw [List.take_succ_cons, toM_diagFrom_cons i hi, ← add_assoc] at hB
+        exact hB)
+    intro p hp
+    simp only [uisdPivots, hi, dif_pos, List.mem_cons] at hp
+    rcases hp with rfl | hp
+    · exact hpiv
+    · exact hrest p hp
+
 end PyPhysim.LinAlg.Pf
